@@ -160,11 +160,20 @@ def one_case(rng, res):
         return
     products = {k: {"sha256": v} for k, v in ref_p[1].items()}
     local = {k: {"sha256": v} for k, v in ref_l[1].items()}
-    desc = {"edits": edits, "patterns": patterns, "lstrip": lstrip, "paths": paths, "n_products": len(products)}
+    foreign = []
+    if products and rng.random() < 0.25:
+        # hash records as other tools or other settings write them: another algorithm only, none at all, one more beside
+        # sha256. The comparison is equality of the whole record: a record that shares no algorithm with the local one
+        # (or lacks one) is a difference, not a match.
+        for kx in rng.sample(sorted(products), min(len(products), rng.randrange(1, 3))):
+            v = products[kx]["sha256"]
+            products[kx] = rng.choice([{"sha512": (v * 2)[:128]}, {}, {"sha256": v, "sha512": (v * 2)[:128]}, {"md5": v[:32]}])
+            foreign.append(kx)
+    desc = {"edits": edits, "patterns": patterns, "lstrip": lstrip, "paths": paths, "n_products": len(products), "foreign_hash_records": foreign}
     i, statuses = run_impl(local_tree, products, paths, patterns, lstrip, first_tree=tree if rng.random() < 0.6 else None)
     m = core.driver().call({"op": "match_products",
-                            "products": [[k, [["sha256", v["sha256"]]]] for k, v in products.items()],
-                            "local": [[k, [["sha256", v["sha256"]]]] for k, v in local.items()]})
+                            "products": [[k, sorted(v.items())] for k, v in products.items()],
+                            "local": [[k, sorted(v.items())] for k, v in local.items()]})
     m = {"ok": m["ok"]}
     agreed = i == m
     P, L = set(products), set(local)
@@ -190,11 +199,72 @@ def one_case(rng, res):
                          stt, "equals" if identical else "differs from"), "impl": i})
 
 
+def dir_uri_case(rng, res):
+    """A directory given as `dir:<path>` in the path list: one product entry whose digest stands for the non-excluded
+    files below it, exclude patterns taken relative to that directory. Directory names that themselves match a default
+    or given pattern, and patterns with a slash (anchored at the directory), tell 'relative to the directory' from
+    'relative to where the command runs'."""
+    from harness.props import c20
+    import in_toto.runlib as rl
+    from in_toto.models.link import Link
+    sub = c20.gen_dir_tree(rng)
+    name = rng.choice(["build", "symbols.linkmap", "pkg", "x~", "old.pyc", "my dir", "lib"])
+    patterns = rng.choice([[], [], [], ["lib/generated.py"], ["/a"], ["build"], ["*.txt"], ["sub/deep"], ["/bar.txt", "/lib"]])
+    if patterns == ["lib/generated.py"]:
+        libd = sub.get("lib") if sub.get("lib", ("f",))[0] == "d" else None
+        if libd is None:
+            sub["lib"] = libd = ("d", {})
+        libd[1]["generated.py"] = ("f", b"# generated\n")
+        libd[1]["core.py"] = ("f", b"core = 1\n")
+    sub2, edits = edit_tree(rng, sub)
+    if patterns == ["lib/generated.py"] and rng.random() < 0.5 and sub2.get("lib", ("f",))[0] == "d":
+        sub2 = copy.deepcopy(sub); sub2["lib"][1]["generated.py"] = ("f", b"# generated again\n"); edits = ["excluded_file_edited"]
+    import hashlib
+    import in_toto.settings as st
+
+    def digest(t):
+        # the documented construction, over what match-products records (it follows symlinked directories)
+        ref = T.reference_record(t, ["."], patterns or list(st.ARTIFACT_EXCLUDE_PATTERNS), True, False, [])
+        lines = sorted((p_.encode("utf8"), h) for p_, h in ref[1].items())
+        return hashlib.sha256(b"".join(h.encode() + b"  " + p_ + b"\n" for p_, h in lines)).hexdigest(), ref[1]
+    exp1, ent1 = digest(sub)
+    exp2, ent2 = digest(sub2)
+    uri = "dir:" + name
+    link = Link(name="s", products={uri: {"sha256": exp1}})
+    d = tempfile.mkdtemp(prefix="verif-c19d-")
+    cwd = os.getcwd()
+    try:
+        T.materialise({name: ("d", sub2)}, os.path.join(d, "t"))
+        os.chdir(os.path.join(d, "t"))
+        try:
+            r = rl.in_toto_match_products(link, paths=[uri], exclude_patterns=patterns or None)
+            i = {"ok": [sorted(x) for x in r]}
+        except Exception as e:  # pylint: disable=broad-except
+            i = {"err": type(e).__name__}
+    finally:
+        os.chdir(cwd)
+        shutil.rmtree(d, ignore_errors=True)
+    m = core.driver().call({"op": "match_products", "products": [[uri, [["sha256", exp1]]]], "local": [[uri, [["sha256", exp2]]]]})
+    m = {"ok": m["ok"]}
+    exp = [[], [], [uri] if exp1 != exp2 else []]
+    desc = {"family": "dir_uri", "dir": name, "patterns": patterns, "edits": edits, "n_files": len(ent1), "changed": ent1 != ent2}
+    res.case({"desc": desc, "impl": i}, len(ent1) >= 1, i == m, sample_cap=1)
+    res.count("family_dir_uri")
+    full = {"op": "match_products_dir", "desc": desc, "tree": T.to_jsonable(sub), "local_tree": T.to_jsonable(sub2)}
+    if i != m:
+        res.fail("disagree", full, {"op": "match_products", "impl": i, "model": m})
+    if i != {"ok": exp}:
+        res.fail("oracle", full, {"why": "the reports for a directory given as dir:<path> are not exactly the difference between its recorded and "
+                                         "its local non-excluded content (patterns relative to that directory)", "impl": i, "expected": exp})
+
+
 def shard(seed, idx, n, tier):
     res = core.Result()
     rng = core.rng_for(seed, "c19", idx)
     for _ in range(n):
         one_case(rng, res)
+    for _ in range(max(3, n // 4)):
+        dir_uri_case(rng, res)
     return res
 
 
@@ -204,9 +274,11 @@ def run(tier, seed):
 
 
 def replay(case):
+    if case.get("op") == "match_products_dir":
+        return {"note": "directory cases are regenerated from the seed", "case": case["desc"]}
     m = core.driver().call({"op": "match_products",
-                            "products": [[k, [["sha256", v["sha256"]]]] for k, v in case["products"].items()],
-                            "local": [[k, [["sha256", v["sha256"]]]] for k, v in case["local"].items()]})
+                            "products": [[k, sorted(v.items())] for k, v in case["products"].items()],
+                            "local": [[k, sorted(v.items())] for k, v in case["local"].items()]})
     P, L = set(case["products"]), set(case["local"])
     extra = {}
     if "local_tree" in case:
